@@ -16,6 +16,10 @@ as documented).  Excluded => no tls_clienthello/tls_start_client, no HTTP reques
 exactly the client's bytes / the client exactly the server's bytes, in order, incl. those sent before the decision.
 Not excluded => interception starts (tls_clienthello for TLS, requestheaders for HTTP, tcp_start in reverse tcp/tls).
 Same verdict for every segmentation (TLS: first segment >= 3 bytes, the documented minimum).
+One case in six exercises the decision point AFTER an intercepted handshake: a real TLS client (ssl.MemoryBIO)
+completes the handshake with an SNI, then sends one decrypted HTTP request; candidate names = address, SNI of the
+established session, Host header, each matching the rules or not independently.  Not excluded => requestheaders
+fires; excluded => no HTTP hook and the decrypted bytes reach the (TLS-terminating) server peer unchanged.
 Additionally (anchor "ClientTLSLayer ignore_connection passthrough"): for TLS flights the rules do not exclude, a
 user addon's tls_clienthello hook sets data.ignore_connection in 1/6 of the cases; then nothing may be terminated and
 every byte, including the buffered ClientHello, must be relayed unchanged.
@@ -24,7 +28,7 @@ import re
 
 from hypothesis import strategies as st
 
-from modes_harness import AddonDriver, Env, client_hello, make_context, segments
+from modes_harness import (AddonDriver, Env, HttpEndpoint, TestPki, TlsClient, client_hello, make_context, segments)
 from runner import HarnessError, hyp
 
 PID = "C19"
@@ -43,7 +47,7 @@ ASSUMPTIONS = ["lib/driver.py interprets commands like proxy/server.py; server p
 LEVEL_TEXT = ("generated-input search against an independent decision model and a byte-exact relay comparison, for "
               "~1e5 (case, segmentation) pairs per quick run; no proof beyond the explored inputs")
 LEVEL_NOTE = "trusts lib/driver.py, lib/modes_harness.py and Python's re module"
-QUICK_N, THOROUGH_N = 24_000, 700_000   # Hypothesis draws; each is run under 3 segmentations (+1 unsegmented reference)
+QUICK_N, THOROUGH_N = 18_000, 700_000   # Hypothesis draws; each is run under 3 segmentations (+1 unsegmented reference)
 
 MODES = ["regular", "transparent", "socks5", "reverse:tcp", "reverse:tls", "reverse:http", "reverse:https"]
 HOSTS = ["addr.example", "10.0.0.5", "2001:db8::5", "Addr.Example", "a-b.c9.example.org", "192.168.1.77"]
@@ -118,8 +122,59 @@ def _patterns(r, forms):
     return re.escape(h[:max(1, len(h) // 2)])
 
 
+POST_MODES = ["transparent", "regular", "socks5"]
+POST_SNIS = ["sni.example", "SNI.Example", "addr.example", "x.sni.example", "example.com"]
+
+
+def _decode_post(r):
+    """the decision point AFTER an intercepted TLS handshake: client TLS is established (with an SNI) and the first
+    decrypted HTTP request is in hand; address, SNI and Host header match the rules independently"""
+    mode = r.pick(POST_MODES)
+    host, port = r.pick(HOSTS), r.pick([443, 8443, 443])
+    sni = r.pick(POST_SNIS)
+    hv = r.pick(HDRS + [b"cdn.other.org", b"sni.example", b"api.internal"]) if r.byte() >= 24 else None
+    flight = {"kind": "http", "method": r.pick(METHODS[:4]), "host": hv, "name": r.pick(NAMES),
+              "ows1": r.pick(OWS), "ows2": r.pick([b"", b"", b" ", b"\t", b"  "]),
+              "before": [r.pick(OTHER) for _ in range(r.byte() % 3)], "after": [r.pick(OTHER) for _ in range(r.byte() % 2)],
+              "target": r.pick([b"/", b"/a?b=c"]), "body": r.pick([b"", b"", b"hello"])}
+    case = {"mode": mode, "post": True, "addr": [host, port], "sni": sni, "flight": flight}
+    forms = _forms_post(case)
+    # bias: the ClientHello stage (address + SNI) should mostly NOT exclude the connection, otherwise there is no
+    # handshake to get behind: allow rules are mostly derived from address/SNI, ignore rules mostly from the Host header
+    pre = {k: v for k, v in forms.items() if k != "host"}
+    hostonly = {k: v for k, v in forms.items() if k == "host"} or forms
+
+    def pat(kind):
+        b = r.byte()
+        return _patterns(r, (pre if kind == "allow" else hostonly) if b >= 64 else forms)
+    rk = r.byte() % 16
+    ign, allow = [], []
+    if rk < 5:
+        ign = [pat("ignore") for _ in range(1 + (rk & 1))]
+    elif rk < 12:
+        allow = [pat("allow") for _ in range(1 + (rk & 1))]
+    else:
+        ign = [pat("ignore")]
+        allow = [pat("allow")]
+    case["ignore"], case["allow"] = ign, allow
+    case["eager"] = bool(r.byte() & 1)
+    return case
+
+
+def _forms_post(case):
+    host, port = case["addr"]
+    forms = {"addr": "%s:%d" % (host, port), "sni": "%s:%d" % (case["sni"], port)}
+    hv = case["flight"]["host"]
+    if hv is not None:
+        h = hv.decode()
+        forms["host"] = h if re.search(r":\d+$", h) else "%s:%d" % (h, port)
+    return forms
+
+
 def _decode(b: bytes):
     r = _R(b)
+    if r.byte() % 6 == 0:
+        return _decode_post(r)
     mode = r.pick(MODES)
     host, port = r.pick(HOSTS), r.pick(PORTS)
     fk = r.byte() % 16
@@ -351,8 +406,90 @@ def _split_class(case, cuts, first_seg):
     return "raw-split"
 
 
+def _decide(forms, ign, allow):
+    """the property's rule on a set of candidate names"""
+    vals = list(forms.values())
+
+    def m(rx, f):
+        return re.search(rx, f, re.IGNORECASE) is not None
+    return (bool(allow) and not any(m(rx, f) for rx in allow for f in vals)) or any(m(rx, f) for rx in ign for f in vals)
+
+
+def check_post(case, ctx, env):
+    """stage 1 (ClientHello: address + SNI known) must not exclude the connection, so TLS is intercepted with a real
+    TLS client; stage 2 (after the handshake: address + SNI of the established session + Host header of the first
+    decrypted request) decides whether the decrypted stream is handled as HTTP or relayed untouched"""
+    TestPki.get()
+    forms = _forms_post(case)
+    ign, allow = case["ignore"], case["allow"]
+    excl1 = _decide({k: v for k, v in forms.items() if k != "host"}, ign, allow)
+    if excl1:
+        ctx.cls("post-handshake:excluded-before-handshake")   # covered by the first-flight scenarios
+        return
+    excl2 = _decide(forms, ign, allow)
+    mode = case["mode"]
+    host, port = case["addr"]
+    env.configure(ignore_hosts=list(ign), allow_hosts=list(allow), ssl_insecure=True,
+                  connection_strategy="eager" if case["eager"] else "lazy")
+    mctx = make_context(env, mode)
+    if mode == "transparent":
+        mctx.server.address = (host, port)
+    d = AddonDriver(env, mctx)
+    log, plain = [], {}
+
+    def on_open(conn):
+        ep = HttpEndpoint(lambda b, c=conn: d.recv(c, b), "server", log, plain)
+        d.on_send[conn] = ep.feed
+    d.on_open = on_open
+    d.start()
+    client = mctx.client
+    if mode == "regular":
+        a = _authority(host, port)
+        d.recv(client, b"CONNECT " + a + b" HTTP/1.1\r\nHost: " + a + b"\r\n\r\n")
+    elif mode == "socks5":
+        d.recv(client, _socks_request(host, port))
+    t = TlsClient(d, client, case["sni"])
+    ok = t.handshake()
+    hit = sorted(k for k, f in forms.items() if any(re.search(rx, f, re.IGNORECASE) for rx in list(ign) + list(allow)))
+    tag = "post-handshake,src=%s" % ("+".join(hit) or "none")
+    if d.crashed is not None:
+        ctx.crash(d.crashed, "layer-crash")
+        return
+    names = d.hook_names()
+    if not ok or "tls_established_client" not in names:
+        ctx.fail("not-excluded-but-tls-not-intercepted:" + tag, "forms=%r ignore=%r allow=%r hooks=%r tls error=%r" % (
+            forms, ign, allow, names, t.tls.error))
+        return
+    req = flight_bytes(case["flight"])
+    t.send(req)
+    if d.crashed is not None:
+        ctx.crash(d.crashed, "layer-crash")
+        return
+    for name, e in env.addon_errors:
+        ctx.crash(e, "addon-error:" + name)
+    names = d.hook_names()
+    http_seen = "requestheaders" in names
+    info = "forms=%r ignore=%r allow=%r hooks after handshake=%r" % (forms, ign, allow, names[names.index("tls_established_client"):])
+    if excl2:
+        if http_seen:
+            ctx.fail("excluded-but-http-parsed:" + tag, info)
+        else:
+            got = b"".join(v for k, v in plain.items())
+            if got != req:
+                ctx.fail("excluded-relay-to-server:" + tag, "client sent %r inside TLS, server got %r | %s" % (req, got, info))
+            if b"200 OK" not in t.plain_in:
+                ctx.fail("excluded-relay-to-client:" + tag, "client got %r | %s" % (t.plain_in, info))
+    else:
+        if not http_seen:
+            ctx.fail("not-excluded-but-not-intercepted:" + tag, info)
+    ctx.nt((mode, tuple(case["addr"]), case["sni"], repr(case["flight"]), tuple(ign), tuple(allow), case["eager"]),
+           "%s|post-handshake|%s|src=%s" % (mode, "excluded" if excl2 else "intercepted", "+".join(hit) or "none"))
+
+
 def check_case(case, ctx):
     env = Env.get(tls=True)
+    if case.get("post"):
+        return check_post(case, ctx, env)
     excl, hit, addr_only, forms = expected_excluded(case)
     fl = case["flight"]
     kind = fl["kind"]
@@ -441,5 +578,7 @@ def run(ctx):
     try:
         hyp(ctx, strategy(ctx), check_case, ctx.n(QUICK_N, THOROUGH_N))
     finally:
+        if TestPki._inst is not None:
+            TestPki._inst.close()
         if Env._inst is not None:
             Env._inst.close()
